@@ -8,7 +8,7 @@ Theorem C06_commit_generation :
   forall cf reqs s d i r c g ts' d',
     exec cf reqs s d = (ts', d') -> nth_error reqs i = Some r ->
     carries_cons_gen r c (Some g) -> req_wf r = true -> succeeded ts' i ->
-    exists k, nth_error s k = Some i /\ cgen_of (snd (at_step cf reqs s d k)) c = Some g /\
+    exists k, commits_at cf reqs s d i k /\ cgen_of (snd (at_step cf reqs s d k)) c = Some g /\
               (exists g', cgen_of (snd (at_step cf reqs s d (S k))) c = Some g' /\ g < g' \/
                cgen_of (snd (at_step cf reqs s d (S k))) c = None).
 Proof. exact c06_commit_generation. Qed.
